@@ -84,17 +84,25 @@ HostLegit(h) == h \in {"exact", "sub", "subsub", "upper"}
 Quirks == {"none", "userinfo_domain", "fragment_at", "backslash_at", "userinfo_pw"}
 \* with these quirks the string shows the client's domain but the browser goes to the foreign host
 BrowserLegit(u) == IF u.quirk = "none" THEN HostLegit(u.host) ELSE FALSE
-ClientCfgs == {"domains", "patterns", "both", "neither", "unknown"}
+\* loose: URL patterns only, and a pattern that matches anything (operators do write such patterns): scheme, query and
+\* parent-directory rules are not the patterns' business and still apply
+ClientCfgs == {"domains", "patterns", "both", "neither", "unknown", "loose"}
 PatternMatches(u) == /\ u.scheme = "https" /\ u.quirk = "none" /\ u.host \in {"exact", "sub", "subsub"}
                      /\ u.path = "plain" /\ u.query = "none"
 PlainLegit == [scheme |-> "https", host |-> "exact", port |-> "none", path |-> "plain", query |-> "none", quirk |-> "none"]
 \* scheme names are case-insensitive
 G_C13_Https(u, o)   == o.redirected => u.scheme \in {"https", "HTTPS"}
 \* a bare "?" carries no query string
-G_C13_NoQuery(u, o) == o.redirected => u.query # "query"
+\* with the fragment quirk ("https://host#@shown-host/path?query") everything after the "#" is fragment: the URL the
+\* browser goes to has an empty path and no query, whatever the row's path / query classes say
+EffQuery(u) == IF u.quirk = "fragment_at" THEN "none" ELSE u.query
+EffPath(u)  == IF u.quirk = "fragment_at" THEN "empty" ELSE u.path
+\* a query string is a query string whether or not a form decoder can make sense of it
+QueryClasses == {"query", "semicolon", "badescape"}
+G_C13_NoQuery(u, o) == o.redirected => EffQuery(u) \notin QueryClasses
 \* a percent-encoded dot is a dot (RFC 3986 unreserved; WHATWG "double-dot path segment"): %2e%2e and .%2E are parent-directory segments too
 DotDotPaths == {"dotdot", "encdotdot", "mixdotdot"}
-G_C13_NoDotDot(u, o) == o.redirected => u.path \notin DotDotPaths
+G_C13_NoDotDot(u, o) == o.redirected => EffPath(u) \notin DotDotPaths
 G_C13_Host(u, c, o) == (o.redirected /\ c \in {"domains", "both"}) => BrowserLegit(u)
 G_C13_Pattern(r, o) == (o.redirected /\ r.client \in {"patterns", "both"} /\ r.site # "cors") => PatternMatches(r.url)
 G_C13_KnownClient(c, o) == o.redirected => c \notin {"unknown", "neither"}
@@ -107,7 +115,7 @@ C13Guards(r, o) == {<<"G_C13_Https", G_C13_Https(r.url, o)>>, <<"G_C13_NoQuery",
                                                   (r.client = "patterns" /\ r.site # "cors"))) => o.redirected>>}
 InC13(r) == \E sc \in {"https", "http", "HTTPS", "javascript", "none", "schemerel"}, h \in HostClasses,
                p \in {"none", "443", "8443"}, pa \in {"plain", "empty", "dotdot", "encdotdot", "mixdotdot", "double"},
-               q \in {"none", "query", "emptyq"}, k \in Quirks, c \in ClientCfgs, site \in {"validator", "authorize", "cors"} :
+               q \in {"none", "query", "emptyq", "semicolon", "badescape"}, k \in Quirks, c \in ClientCfgs, site \in {"validator", "authorize", "cors"} :
                /\ site = "cors" => (pa = "plain" /\ q = "none" /\ k \in {"none", "userinfo_domain", "userinfo_pw"})
                /\ r = [url |-> [scheme |-> sc, host |-> h, port |-> p, path |-> pa, query |-> q, quirk |-> k],
                     client |-> c, site |-> site]
@@ -145,6 +153,6 @@ Spec == Init /\ [][Next]_vars
 
 StaysOnOrigin == (Which = "C17" /\ out # Pending) => \A g \in C17Guards(req, out) : g[2]
 OnlyOwnHttpsHosts == (Which = "C13" /\ out # Pending /\ out.redirected) =>
-                        (req.url.scheme \in {"https", "HTTPS"} /\ req.url.query # "query" /\ req.client \notin {"unknown", "neither"} /\
+                        (req.url.scheme \in {"https", "HTTPS"} /\ EffQuery(req.url) \notin QueryClasses /\ req.client \notin {"unknown", "neither"} /\
                          (req.client \in {"domains", "both"} => (HostLegit(req.url.host) /\ req.url.quirk = "none")))
 =============================================================================
